@@ -303,6 +303,18 @@ func (k *c1canon) vertex(v *adt.Vertex, sb *strings.Builder) {
 			// the node is a struct/list whose error is that of a descendant: the
 			// descendants carry the status (derived, so not part of the own description)
 			sb.WriteString("_|_(" + c1errClass(b) + ",child)")
+			isList := false
+			for _, a := range v.Arcs {
+				if a.Label.IsInt() {
+					isList = true
+				}
+			}
+			if isList {
+				// openness is not recorded on an erroneous list: `...` shows as the
+				// pattern constraint of the node
+				k.list(v, sb, false)
+				return
+			}
 			k.arcs(v, sb)
 			return
 		}
@@ -316,38 +328,7 @@ func (k *c1canon) vertex(v *adt.Vertex, sb *strings.Builder) {
 		k.arcs(v, sb)
 	case *adt.ListMarker:
 		k.nList++
-		k.w(sb, "[")
-		n := 0
-		for _, a := range v.Arcs {
-			if !a.Label.IsInt() {
-				continue
-			}
-			if a.ArcType == adt.ArcNotPresent || a.ArcType == adt.ArcPending {
-				continue
-			}
-			if n > 0 {
-				k.w(sb, ",")
-			}
-			k.w(sb, c1arcMark(a.ArcType))
-			path := k.curPath
-			k.curPath = fmt.Sprintf("%s/%d", path, n)
-			n++
-			if k.track {
-				var cs strings.Builder
-				k.vertex(a, &cs)
-				sb.WriteString(cs.String())
-				k.ownOnly("·")
-			} else {
-				k.vertex(a, sb)
-			}
-			k.curPath = path
-		}
-		if b.IsOpen {
-			k.w(sb, ",...")
-		}
-		k.w(sb, "]")
-		k.patterns(v, sb)
-		k.nonListArcs(v, sb)
+		k.list(v, sb, b.IsOpen)
 	case *adt.Vertex:
 		// DerefValue should have removed this
 		k.untracked(func() { k.vertex(b, sb) })
@@ -369,6 +350,41 @@ func (k *c1canon) vertex(v *adt.Vertex, sb *strings.Builder) {
 			k.w(sb, "=>"+ds.String())
 		}
 	}
+}
+
+func (k *c1canon) list(v *adt.Vertex, sb *strings.Builder, open bool) {
+	k.w(sb, "[")
+	n := 0
+	for _, a := range v.Arcs {
+		if !a.Label.IsInt() {
+			continue
+		}
+		if a.ArcType == adt.ArcNotPresent || a.ArcType == adt.ArcPending {
+			continue
+		}
+		if n > 0 {
+			k.w(sb, ",")
+		}
+		k.w(sb, c1arcMark(a.ArcType))
+		path := k.curPath
+		k.curPath = fmt.Sprintf("%s/%d", path, n)
+		n++
+		if k.track {
+			var cs strings.Builder
+			k.vertex(a, &cs)
+			sb.WriteString(cs.String())
+			k.ownOnly("·")
+		} else {
+			k.vertex(a, sb)
+		}
+		k.curPath = path
+	}
+	if open {
+		k.w(sb, ",...")
+	}
+	k.w(sb, "]")
+	k.patterns(v, sb)
+	k.nonListArcs(v, sb)
 }
 
 func (k *c1canon) nonListArcs(v *adt.Vertex, sb *strings.Builder) {
